@@ -18,10 +18,13 @@ for sid in ids:
         caught, undec = [], []
         for pid in sorted(props.PROPS):
             o = subprocess.run(['./check.py', pid, '--tier', 'quick'], cwd='/verif', capture_output=True, text=True)
-            if o.returncode == 1:
-                caught.append(dict(check=pid, lines=[l for l in o.stdout.split('\n') if l.startswith('VIOLATION')]))
-            elif o.returncode == 2:
+            vl = [l for l in o.stdout.split('\n') if l.startswith('VIOLATION')]
+            if o.returncode == 1 and vl:
+                caught.append(dict(check=pid, lines=vl))
+            elif o.returncode != 0:
                 undec.append(pid)
+                if o.returncode != 2:
+                    print(sid, pid, 'exit', o.returncode, 'without VIOLATION line:', (o.stderr or o.stdout)[-400:], flush=True)
         meta['caught_by'] = caught
         meta['undecided_checks'] = undec
         json.dump(meta, open(os.path.join(d, 'meta.json'), 'w'), indent=1)
